@@ -245,4 +245,61 @@ def plan_C14(res, binary, hooked, tier, seed):
     return ("operation histories x stream pool; an evaluation = one decompress-after-reset compared with a new decoder; distinct = distinct histories"), [
         "TLC 1.8; RawReuse.tla", "the freshly constructed decoder of lzma-rs is the oracle, as the property states; the projection hook (cfg lzma_rs_verif) only feeds the shape tier"]
 
-PLANS = {"C01": plan_C01, "C05": plan_C05, "C08": plan_C08, "C09": plan_C09, "C10": plan_C10, "C15": plan_C15, "C16": plan_C16, "C03": plan_C03, "C06": plan_C06, "C18": plan_C18, "C02": plan_C02, "C17": plan_C17, "C12": plan_C12, "C13": plan_C13, "C11": plan_C11, "C14": plan_C14}
+def plan_C04(res, binary, hooked, tier, seed):
+    mc = run_tlc("MC_Encoder", "MC_Encoder.cfg", "C04_mc", workers=8, timeout=900, coverage=False)
+    res.add_tlc(mc, "abstract encoders vs format semantics for all inputs of length 0..7 (chunk limit scaled to 3) x 3 options x all source fragmentations: RoundTripLzma + LitOnly, RoundTripLzma2, XzArithmetic, ChunkCount")
+    trace = os.path.join(WORK, "trace_C04.ndjson")
+    args = ["enc", "--property", "C04", "--seed", seed, "--trace", trace]
+    if tier == "thorough":
+        args.append("--thorough")
+    rep = run_harness(binary, args, "C04_enc", timeout=7200)
+    res.add_harness(rep, "real outputs of lzma_compress (3 options), lzma2_compress, xz_compress for lengths 0,1,2,3,17,100,1000,65535,65536,65537,131072,131073 (thorough: more, up to 1 MiB) x 7 content families (zeros, 0xFF plateaus, random, alternating runs, ramp, saturate-then-flip, mostly-0xFF) x source fragmentations (all at once, 1-byte, 64 KiB, random): decoded by lzma-rs (one-shot + Stream), by the harness reference decoder, and by liblzma (xz CLI) when present", counts_as_traces=False)
+    ok, info = validate_trace("Trace_Encoder", "Trace_Encoder.cfg", trace, "C04_trace", timeout=tq(tier, 900, 7200))
+    res.add_tlc(info, "trace validation: header fields, symbol list, chunk layout and container arithmetic parsed from the real outputs vs Encoder.tla")
+    if ok:
+        res.traces += rep["counters"].get("trace_events", 0)
+    else:
+        res.violations.append({"property": "C04", "desc": "an encoder output does not have the structure Encoder.tla prescribes (header field / chunk layout / index or backward-size arithmetic): %s" % (info.get("reject") or info.get("error") or "")[:500],
+                               "case": {"kind": "tlc-trace", "trace_file": trace}})
+    return ("inputs x options x fragmentations; distinct = distinct (length, content family, fragmentation, option, encoder)"), TRUSTED_LZMA + [
+        "the carry propagation of the range ENCODER is 33-bit arithmetic outside TLA+: decided by differential round trip through three decoders (lzma-rs, harness reference decoder, liblzma when present)"]
+
+def plan_C07(res, binary, hooked, tier, seed):
+    from concurrent.futures import ThreadPoolExecutor
+    mc = run_tlc("MC_LzmaCoding", "MC_LzmaCoding_allprops.cfg", "C07_idx", workers=8, timeout=900, coverage=False)
+    res.add_tlc(mc, "IndexBounds: every probability index of every symbol kind stays inside the tables lzma-rs allocates, for all 225 lc/lp/pb settings")
+    mc2 = run_tlc("MC_LzmaDecoder", "MC_LzmaDecoder_quick.cfg", "C07_dec", workers=8, timeout=900, coverage=False)
+    res.add_tlc(mc2, "window arithmetic: CursorRange, BufBound, NoFabrication, Terminates (liveness)")
+    nproc = tq(tier, 8, 14)
+    per = tq(tier, 25000, 1500000)
+    def job(i):
+        trace = os.path.join(WORK, "trace_C07_%d.ndjson" % i)
+        rep = run_harness(binary, ["total", "--property", "C07", "--seed", seed, "--from", i * per, "--count", per, "--trace", trace], "C07_t%d" % i, timeout=tq(tier, 1500, 20000))
+        return rep, trace
+    with ThreadPoolExecutor(max_workers=nproc) as ex:
+        outs = list(ex.map(job, range(nproc)))
+    alltrace = os.path.join(WORK, "trace_C07.ndjson")
+    with open(alltrace, "w") as f:
+        for rep, tr in outs:
+            res.add_harness(rep, "seeded cases (pure function of seed and index): uniformly random bytes, random bytes after a plausible header, valid LZMA / LZMA2 / XZ streams with bit flips, truncation, duplication, splicing, field and byte extremes, trailing bytes; XZ fields set to extreme values with CRCs repaired; raw decoder with arbitrary parameters; headers announcing huge dictionaries and sizes; long-output streams - through all six decoding entry points, all options, memory limits, random chunkings", counts_as_traces=False)
+            if os.path.exists(tr):
+                # validate a bounded sample with TLC (first 40k events of each worker)
+                with open(tr) as g:
+                    for k, line in enumerate(g):
+                        if k >= tq(tier, 40000, 120000):
+                            break
+                        f.write(line)
+                os.remove(tr)
+    ok, info = validate_trace("Trace_Totality", "Trace_Totality.cfg", alltrace, "C07_trace", timeout=tq(tier, 900, 7200))
+    res.add_tlc(info, "trace validation: every call returned Ok/Err and its peak heap growth respects A0 + K * (input + produced)")
+    text = open(info["out"], errors="replace").read()
+    if ok:
+        res.traces += info["distinct"] - 1
+    else:
+        res.violations.append({"property": "C07", "desc": "Trace_Totality rejected the recorded outcomes (a call that is neither Ok nor Err, or an allocation beyond A0 + K*(input+produced)): %s" % (info.get("reject") or info.get("error") or "")[:400], "case": {"kind": "tlc-trace", "trace_file": alltrace}})
+    res.level = "model_checking"
+    return ("cases are generated from (seed, index); distinct = distinct indices with non-empty input; the uniformly random families are exploration, the structured families (grammar + field extremes) are derived from the format models"), [
+        "TLC 1.8; Totality.tla + the structural invariants of the other models", "the counting global allocator of the harness (peak live heap growth during the call, sink included)", "watchdog: 30 s per input",
+        "overflow-checked arithmetic is what the harness is built with (any wrap would surface as a panic); the thorough tier additionally builds without overflow checks"]
+
+PLANS = {"C01": plan_C01, "C05": plan_C05, "C08": plan_C08, "C09": plan_C09, "C10": plan_C10, "C15": plan_C15, "C16": plan_C16, "C03": plan_C03, "C06": plan_C06, "C18": plan_C18, "C02": plan_C02, "C17": plan_C17, "C12": plan_C12, "C13": plan_C13, "C11": plan_C11, "C14": plan_C14, "C04": plan_C04, "C07": plan_C07}
